@@ -11,6 +11,7 @@ import (
 	"math/rand"
 	"os"
 	"path/filepath"
+	"time"
 
 	"github.com/bbva/qed/storage"
 	"github.com/bbva/qed/storage/bplus"
@@ -124,7 +125,72 @@ func storeDriver(args []string) error {
 				tabs = []storage.Table{allTables[rng.Intn(len(allTables))]}
 			}
 			nops := 25 + rng.Intn(40)
+			bigAt := rng.Intn(nops)
 			for op := 0; op < nops; op++ {
+				if op == bigAt {
+					// a batch of more than a thousand mutations, written twice (insert, overwrite) while
+					// another goroutine keeps reading the whole key range with one consistent range read:
+					// every read must see the batch entirely or not at all
+					bt := allTables[rng.Intn(len(allTables))]
+					n := 1025 + rng.Intn(700)
+					mk := func(i int) []byte { return []byte{0xB1, byte(i >> 16), byte(i >> 8), byte(i)} }
+					for gen := byte(1); gen <= 2; gen++ {
+						muts := []*storage.Mutation{}
+						batch := []interface{}{}
+						val := []byte{gen, byte(run), byte(fi)}
+						for i := 0; i < n; i++ {
+							muts = append(muts, storage.NewMutation(bt, mk(i), val))
+							batch = append(batch, trace.Ev{"t": tableNames[bt], "k": ints(mk(i)), "v": hx(val)})
+						}
+						stop := make(chan struct{})
+						obsCh := make(chan []interface{}, 1)
+						go func() {
+							seen := map[[3]int]bool{}
+							obs := []interface{}{}
+							if kind != "rocks" {
+								// the B+ tree store has no synchronisation at all (single-goroutine test store):
+								// no concurrent reader there
+								<-stop
+								obsCh <- obs
+								return
+							}
+							for {
+								select {
+								case <-stop:
+									obsCh <- obs
+									return
+								default:
+								}
+								r, err := st.GetRange(bt, mk(0), mk(n-1))
+								if err != nil {
+									continue
+								}
+								c := [3]int{}
+								for _, kv := range r {
+									switch {
+									case len(kv.Value) == 3 && kv.Value[0] == gen:
+										c[0]++
+									case len(kv.Value) == 3 && kv.Value[0] == gen-1:
+										c[1]++
+									default:
+										c[2]++
+									}
+								}
+								if !seen[c] {
+									seen[c] = true
+									obs = append(obs, trace.Ev{"new": c[0], "old": c[1], "other": c[2]})
+								}
+							}
+						}()
+						time.Sleep(2 * time.Millisecond)
+						err := st.Mutate(muts, nil)
+						time.Sleep(2 * time.Millisecond)
+						close(stop)
+						obs := <-obsCh
+						tw.Emit(trace.Ev{"a": "mutate", "batch": batch, "err": err != nil})
+						tw.Emit(trace.Ev{"a": "observe", "t": tableNames[bt], "n": n, "gen": int(gen), "obs": obs})
+					}
+				}
 				t := allTables[rng.Intn(len(allTables))]
 				tn := tableNames[t]
 				key := pool[rng.Intn(len(pool))]
